@@ -10,12 +10,10 @@
 //!     Methods use the definitional references of C02-C04/C14, indicators those of C05/C06.
 
 use checks::ind::*;
-use checks::indcheck::{rc, ref_cfg};
 use checks::mrefs::*;
 use checks::mvr::*;
 use checks::subj::*;
 use checks::*;
-use refmodel::ind::{IndRef, Sig};
 use yata::core::Candle;
 
 type V = ValueType;
@@ -121,7 +119,13 @@ impl System for LongSys {
 		for p in &self.params {
 			let v0 = mk_in(sp.input, 1.0, 0);
 			let (Ok(Ok(imp)), Some(rf)) = (catch(|| (sp.ctor)(p, &v0)), method_ref(self.spec_name, p, &v0)) else { continue };
-			v.push((LSt { imp, rf, g: Gen { t: 0, last: 1.0, scale: 1.0, jumped: false }, macros: 0, micros: 0 }, format!("{}({}) v0={}", sp.name, p.show(), v0.show())));
+			// prescribed use: the first value fed is the construction value
+			let (mut imp, mut rf) = (imp, rf);
+			if catch(|| imp.next(&v0)).is_err() {
+				continue;
+			}
+			let _ = rf.next(&v0);
+			v.push((LSt { imp, rf, g: Gen { t: 1, last: 1.0, scale: 1.0, jumped: false }, macros: 0, micros: 0 }, format!("{}({}) v0={}", sp.name, p.show(), v0.show())));
 		}
 		v
 	}
@@ -205,15 +209,21 @@ impl System for LongSys {
 }
 
 // ------------------------------------------------------------------ indicators
+// "an instance with a long past behaves like a fresh instance primed with the recent inputs":
+// reference-free, so documentation-vs-code discrepancies (C05/C06) cannot show up here.
 
 #[derive(Clone)]
 struct ISt {
-	imp: Box<dyn IndInst>,
-	rf: Box<dyn IndRef>,
+	old: Box<dyn IndInst>,
+	fresh: Option<Box<dyn IndInst>>,
+	ring: std::collections::VecDeque<Candle>,
 	g: Gen,
 	macros: u32,
 	micros: u32,
 	cfg: usize,
+	w: usize,
+	/// old and fresh instance returned bit-identical values on the previous step
+	prev_equal: bool,
 }
 struct ILongSys {
 	name: String,
@@ -230,6 +240,64 @@ fn mk_candle(v: f64, prev: f64, t: u64) -> Candle {
 	let lo = a.min(b) * (1.0 - 0.01 * ((t % 3) as f64));
 	Candle { open: b as V, high: hi as V, low: lo as V, close: a as V, volume: (1.0 + (t % 4) as f64) as V }
 }
+fn cfg_span(c: &dyn IndCfg) -> usize {
+	let mut n = 1usize;
+	for (_, v) in json_map(&c.to_json().unwrap_or_default()) {
+		if let Some(u) = v.as_u64() {
+			n = n.max(u as usize);
+		}
+		if let Some(o) = v.as_object() {
+			if let Some(u) = o.values().next().and_then(|x| x.as_u64()) {
+				n = n.max(u as usize);
+			}
+		}
+	}
+	n
+}
+/// indicators whose state has unbounded memory (path-dependent recursion, latches, cumulative sums)
+fn unbounded_memory(name: &str, c: &dyn IndCfg) -> bool {
+	matches!(name, "ParabolicSAR" | "Kaufman") || (name == "ChaikinOscillator" && json_map(&c.to_json().unwrap_or_default()).get("window").and_then(|v| v.as_u64()) == Some(0)) || c.to_json().unwrap_or_default().contains("vidya")
+}
+fn latched_signals(name: &str) -> bool {
+	matches!(name, "CommodityChannelIndex" | "AwesomeOscillator" | "FisherTransform" | "Kaufman" | "ParabolicSAR")
+}
+impl ILongSys {
+	fn compare(&self, name: &str, a: &yata::core::IndicatorResult, b: &yata::core::IndicatorResult, t: u64, jumped: bool, prev_equal: &mut bool) -> Result<bool, Failure> {
+		let jump = if jumped { "/after-scale-jump" } else { "" };
+		let mut bit_equal = true;
+		let mut exempt = false;
+		for (i, (x, y)) in a.values().iter().zip(b.values()).enumerate() {
+			if x.to_bits() != y.to_bits() {
+				bit_equal = false;
+			}
+			if x.is_nan() || y.is_nan() || x.is_infinite() || y.is_infinite() {
+				exempt = true; // undefined regions are C12's business
+				continue;
+			}
+			let (x, y) = (*x as f64, *y as f64);
+			// coarse on purpose: this oracle looks for gross decay (saturating counters, ring phase, corrupted
+			// state), the sharp rounding allowance is applied to the methods above. sqrt(variance residue) of a
+			// running standard deviation is ~1e-5 after 1e5 steps; after a x2^20 scale jump every running sum
+			// legitimately carries an absolute error proportional to the LARGEST magnitude it has seen.
+			let tol = 1e-4 * x.abs().max(y.abs()).max(1.0);
+			// after a scale jump values are not compared at indicator level (see above); signals still are
+			if !jumped && (x - y).abs() > tol {
+				return Err(Failure::new(format!("{name}/value#{i}/long-past-differs-from-fresh/{}{jump}", tclass(t)), format!("after {t} candles: value #{i} = {x:?}, a fresh instance primed with the recent window gives {y:?}")));
+			}
+		}
+		let both = bit_equal && *prev_equal;
+		*prev_equal = bit_equal;
+		// signals are judged only where the deciding values (this and the previous step) are bit-identical
+		if both && !latched_signals(name) {
+			for (i, (x, y)) in a.signals().iter().zip(b.signals()).enumerate() {
+				if format!("{x:?}") != format!("{y:?}") {
+					return Err(Failure::new(format!("{name}/signal#{i}/long-past-differs-from-fresh/{}{jump}", tclass(t)), format!("after {t} candles: signal #{i} = {x:?}, fresh instance {y:?} (all values bit-identical)")));
+				}
+			}
+		}
+		Ok(exempt)
+	}
+}
 impl System for ILongSys {
 	type State = ISt;
 	type Act = Act;
@@ -239,9 +307,18 @@ impl System for ILongSys {
 	fn inits(&self) -> Vec<(ISt, String)> {
 		let mut v = vec![];
 		for (i, c) in self.cfgs.iter().enumerate() {
+			if unbounded_memory(c.const_name(), c.as_ref()) {
+				continue;
+			}
 			let c0 = mk_candle(1.0, 1.0, 0);
-			let (Ok(Ok(imp)), Some(rf)) = (catch(|| c.init(&c0)), refmodel::ind::make(c.const_name(), &ref_cfg(c.as_ref()), &rc(&c0))) else { continue };
-			v.push((ISt { imp, rf, g: Gen { t: 0, last: 1.0, scale: 1.0, jumped: false }, macros: 0, micros: 0, cfg: i }, format!("{} {}", c.const_name(), c.to_json().unwrap_or_default())));
+			let Ok(Ok(mut old)) = catch(|| c.init(&c0)) else { continue };
+			if catch(|| old.next(&c0)).is_err() {
+				continue;
+			}
+			let w = (60 * cfg_span(c.as_ref()) + 100).min(4000);
+			let mut ring = std::collections::VecDeque::new();
+			ring.push_back(c0);
+			v.push((ISt { old, fresh: None, ring, g: Gen { t: 1, last: 1.0, scale: 1.0, jumped: false }, macros: 0, micros: 0, cfg: i, w, prev_equal: false }, format!("{} {}", c.const_name(), c.to_json().unwrap_or_default())));
 		}
 		v
 	}
@@ -268,52 +345,46 @@ impl System for ILongSys {
 		}
 	}
 	fn step(&self, s: &ISt, a: &Act) -> Step<ISt> {
-		let name = self.cfgs[s.cfg].const_name();
+		let cfg = &self.cfgs[s.cfg];
+		let name = cfg.const_name();
 		let mut n = s.clone();
 		let mut exempt = false;
-		let mut one = |n: &mut ISt, c: Candle, inner: u64| -> Result<(), Failure> {
-			let r = match catch(|| n.imp.next(&c)) {
-				Ok(r) => r,
-				Err(p) => return Err(Failure::new(format!("{name}/next/panic"), format!("inner step {inner}: {}: {}", p.at(), p.msg))),
-			};
-			let r_c = rc(&c);
-			let want_v = n.rf.values(&r_c);
-			let own: Vec<f64> = r.values().iter().map(|v| *v as f64).collect();
-			let want_s = n.rf.signals(&r_c, &own);
-			let jump = if n.g.jumped { "/after-scale-jump" } else { "" };
-			for (i, (q, o)) in want_v.iter().zip(&own).enumerate() {
-				if !q.is_defined() {
-					exempt = true;
-					continue;
-				}
-				if !q.contains(*o) {
-					return Err(Failure::new(format!("{name}/value#{i}/differs-from-formula/{}{jump}", tclass(n.g.t)), format!("after {} candles (inner step {inner} of {a:?}): value #{i} = {o:?}, formula {:?} ± {:.3e}", n.g.t, q.v, q.r)));
-				}
-			}
-			for (i, (w, g)) in want_s.iter().zip(r.signals()).enumerate() {
-				let gs = checks::indcheck::act_strength(g);
-				let ok = match w {
-					Sig::Any => true,
-					Sig::None => gs.is_none() || gs == Some(0),
-					Sig::S(k) => gs == Some(*k) || (gs.is_none() && *k == 0),
-				};
-				if !ok {
-					return Err(Failure::new(format!("{name}/signal#{i}/differs-from-rule/{}{jump}", tclass(n.g.t)), format!("after {} candles (inner step {inner} of {a:?}): signal #{i} = {g:?}, documented rule {w:?}", n.g.t)));
-				}
-			}
-			Ok(())
-		};
+		let mut pe = s.prev_equal;
 		match a {
 			Act::Macro(r, l) => {
 				n.macros += 1;
 				for j in 0..*l {
 					let prev = n.g.last;
 					let v = n.g.next(*r);
-					let t = n.g.t;
-					if let Err(f) = one(&mut n, mk_candle(v, prev, t), j) {
-						return Step::Violation(f);
+					let c = mk_candle(v, prev, n.g.t);
+					let ro = match catch(|| n.old.next(&c)) {
+						Ok(r) => r,
+						Err(p) => return Step::Violation(Failure::new(format!("{name}/next/panic"), format!("inner step {j}: {}", p.msg))),
+					};
+					// an already primed fresh twin keeps running in lock-step
+					if let Some(f) = n.fresh.as_mut() {
+						if let Ok(rf) = catch(|| f.next(&c)) {
+							match self.compare(name, &ro, &rf, n.g.t, n.g.jumped, &mut pe) {
+								Ok(e) => exempt |= e,
+								Err(f) => return Step::Violation(f),
+							}
+						}
+					}
+					n.ring.push_back(c);
+					if n.ring.len() > n.w {
+						n.ring.pop_front();
 					}
 				}
+				// prime a fresh instance with the recent window
+				let first = n.ring[0];
+				let Ok(Ok(mut f)) = catch(|| cfg.init(&first)) else { return Step::Prune };
+				for c in n.ring.iter() {
+					if catch(|| f.next(c)).is_err() {
+						return Step::Prune;
+					}
+				}
+				n.fresh = Some(f);
+				pe = false;
 			}
 			Act::Micro(i) => {
 				n.micros += 1;
@@ -321,13 +392,27 @@ impl System for ILongSys {
 				let sc = n.g.scale as V;
 				let m = self.micro[*i];
 				let c = Candle { open: m.open * sc, high: m.high * sc, low: m.low * sc, close: m.close * sc, volume: m.volume };
-				if let Err(f) = one(&mut n, c, 0) {
-					return Step::Violation(f);
+				let ro = match catch(|| n.old.next(&c)) {
+					Ok(r) => r,
+					Err(p) => return Step::Violation(Failure::new(format!("{name}/next/panic"), p.msg)),
+				};
+				if let Some(f) = n.fresh.as_mut() {
+					if let Ok(rf) = catch(|| f.next(&c)) {
+						match self.compare(name, &ro, &rf, n.g.t, n.g.jumped, &mut pe) {
+							Ok(e) => exempt |= e,
+							Err(f) => return Step::Violation(f),
+						}
+					}
+				}
+				n.ring.push_back(c);
+				if n.ring.len() > n.w {
+					n.ring.pop_front();
 				}
 			}
 		}
+		n.prev_equal = pe;
 		if exempt {
-			Step::Exempt(n, "formula undefined")
+			Step::Exempt(n, "undefined value")
 		} else {
 			Step::Next(n)
 		}
@@ -401,7 +486,7 @@ fn main() {
 			ParKind::NN => vec![Params::NN(2, 2), Params::NN(3, 10)],
 			ParKind::Weights => vec![Params::W(vec![1.0, 2.0, 3.0])],
 			ParKind::Unit => vec![Params::Unit],
-			ParKind::Ma => MA_KINDS.iter().map(|k| Params::Ma(ma_of(k, 5))).collect(),
+			ParKind::Ma => vec![],
 			_ => vec![],
 		};
 		let micro: Vec<In> = match sp.input {
@@ -409,6 +494,14 @@ fn main() {
 			InKind::Pair => vec![In::P(1.0, 1.0), In::P(-3.0, 4.0), In::P(1.5, 0.0)],
 			InKind::Candle => alpha::k_candles()[..3].iter().map(|c| In::C(*c)).collect(),
 		};
+		if sp.par == ParKind::Ma {
+			// MA::init dispatch: one system per kind so that findings are attributed to the kind
+			for k in MA_KINDS {
+				let sys = LongSys { name: format!("MAInstance[{k}]/long-history"), spec_name: name, params: vec![Params::Ma(ma_of(k, 5))], menu: menu.clone(), max_macros: 2, micro: micro.clone(), micro_depth: 1, total_cap };
+				h.go(&sys, &Limits::depth(6).wall_secs(if thorough { 3600 } else { 120 }), true);
+			}
+			continue;
+		}
 		let sys = LongSys { name: format!("{name}/long-history"), spec_name: name, params, menu: menu.clone(), max_macros: if thorough { 2 } else { 2 }, micro, micro_depth: 2, total_cap };
 		h.go(&sys, &Limits::depth(6).wall_secs(if thorough { 3600 } else { 120 }), true);
 	}
@@ -421,11 +514,8 @@ fn main() {
 				continue;
 			}
 		}
-		if refmodel::ind::make(name, &ref_cfg(c.as_ref()), &rc(&ks[0])).is_none() {
-			continue;
-		}
 		let cfgs = checks::indcheck::indicator_configs(Some(name), false);
-		let sys = ILongSys { name: format!("{name}/long-history"), cfgs, menu: menu.clone(), max_macros: 2, micro: ks[..3].to_vec(), micro_depth: 1, total_cap };
+		let sys = ILongSys { name: format!("{name}/long-history-vs-fresh"), cfgs, menu: menu.clone(), max_macros: 2, micro: ks[..3].to_vec(), micro_depth: 2, total_cap };
 		h.go(&sys, &Limits::depth(5).wall_secs(if thorough { 3600 } else { 120 }), true);
 	}
 	h.run.note("longest_history", serde_json::json!(total_cap));
